@@ -4,7 +4,10 @@ Reference model (in this file, independent of the library): cosine distances fro
 closest distance, numpy.quantile threshold, ledger of observed / warm-started arms built from the recorded call
 events.  Per-arm learned state is read generically from the hooked implementor (every dict attribute keyed by
 the arm, arm models flattened to arrays; status and cross-arm normalised values excluded) before and after
-every warm_start, and behaviourally (deterministic expectations of a warm-started arm equal its source's)."""
+every warm_start, and behaviourally (deterministic expectations of a warm-started arm equal its source's).
+
+As built: Extras: feature vectors scaled by 1e-9 / 1e-12 / 1e9 (cosine distance is scale invariant), exact distance == threshold decided with scipy's own values.
+"""
 from mon import env  # noqa: F401
 import copy
 import math
